@@ -2,8 +2,9 @@
 C17 — sequence-level compression: valid parses round-trip, invalid ones are refused.
 -/
 import ZstdVerif.Model.SeqApi
+import ZstdVerif.Lemmas.SeqApiRep
 namespace ZstdVerif.Props.C17
-open ZstdVerif ZstdVerif.SeqApi ZstdVerif.Gen
+open ZstdVerif ZstdVerif.SeqApi ZstdVerif.Gen ZstdVerif.SeqApiRep
 
 /-- **offsets are validated against the history available at the START of the match** (position before the sequence plus its
 literals) - over the statements regenerated from both copiers.  (False of the original code, which added the match length too.) -/
@@ -66,5 +67,61 @@ theorem acceptExplicit_tiles (c : Cfg) (fuel : Nat) (s : List Seq) (pos rem : Na
 example : acceptExplicit ⟨131072, 1 <<< 17, 0, 4⟩ 10 [⟨8, 8, 152⟩, ⟨0, 0, 0⟩] 0 160 = true := by decide
 example : acceptExplicit ⟨131072, 1 <<< 17, 0, 4⟩ 10 [⟨9, 8, 152⟩, ⟨0, 0, 0⟩] 0 160 = false := by decide
 example : acceptExplicit ⟨131072, 1 <<< 17, 0, 4⟩ 10 [⟨10, 0, 20⟩, ⟨0, 44, 0⟩] 0 64 = false := by decide
+
+/-! ### the repeat-offset history the transcriber leaves for the next block (explicit delimiters, registered sequence producers) -/
+
+/-- **the history handed to the next block is the decoder's.**  For a block of valid raw offsets transcribed by
+ZSTD_copySequencesToSeqStoreExplicitBlockDelim - repcode search on or off, any number of sequences - the decoder, started from the same
+history, resolves the stored Offset_Values back to the raw offsets, and the history it holds after the block is exactly what the transcriber
+leaves in `nextCBlock->rep`: the internal parser that takes over the next block after a producer failure (fallback), or the transcriber of
+the next block, starts from the decoder's state. -/
+theorem storeExplicit_lockstep (search : Bool) (rep : Rep.R) (seqs : List Seq) (h0 : 1 ≤ rep.r0) (h1 : 1 ≤ rep.r1) (h2 : 1 ≤ rep.r2)
+    (hq : ∀ s ∈ seqs, 1 ≤ s.offset) :
+    (SeqRT.resolveAll rep (trisOf seqs (storeExplicit search rep seqs).1)).1.map (fun q => (q.ll, q.ml, q.offset))
+        = seqs.map (fun s => (s.ll, s.ml, s.offset)) ∧
+      (SeqRT.resolveAll rep (trisOf seqs (storeExplicit search rep seqs).1)).2 = (storeExplicit search rep seqs).2 := by
+  cases search with
+  | true => simpa [storeExplicit] using resolveAll_storeOn rep seqs h0 h1 h2 hq
+  | false =>
+    have := resolveAll_raw rep seqs hq
+    simp only [storeExplicit, Bool.false_eq_true, if_false]
+    rw [endRepOff_eq_pushAll]
+    exact this
+
+/-- with repcode search off the three-case tail of the transcriber (three or more sequences / exactly two / exactly one) is "every raw
+offset of the block pushed in front, oldest entries dropped" - for every number of sequences -/
+theorem endRepOff_pushes_every_offset (rep : Rep.R) (seqs : List Seq) :
+    endRepOff rep seqs = seqs.foldl (fun r s => ⟨s.offset, r.r0, r.r1⟩) rep := endRepOff_eq_pushAll rep seqs
+
+/-- a producer's answer is turned into exactly one of: a transcribed block, a hand-over to the internal parser, or an error; a block is
+handed over / the call fails with sequenceProducer_failed only for an error code, an empty answer, or a full buffer without delimiter -
+and which of the two is decided by ZSTD_c_enableSeqProducerFallback alone -/
+theorem producer_failure_switch (search validate : Bool) (w d : Nat) (rep : Rep.R) (srcSize cap ret : Nat) (buf : List Seq) :
+    (producerBlock search true validate w d rep srcSize cap ret buf = .fallback ↔
+      producerBlock search false validate w d rep srcSize cap ret buf = .failed) ∧
+    producerBlock search true validate w d rep srcSize cap ret buf ≠ .failed ∧
+    producerBlock search false validate w d rep srcSize cap ret buf ≠ .fallback := by
+  unfold producerBlock
+  simp only []
+  split
+  · simp
+  · split
+    · simp
+    · split
+      · simp
+      · split
+        · simp
+        · split
+          · simp
+          · split <;> simp
+
+example : endRepOff ⟨1, 4, 8⟩ [⟨700, 5, 30⟩, ⟨1234, 3, 40⟩, ⟨4321, 2, 45⟩] = ⟨4321, 1234, 700⟩ := by decide
+example : endRepOff ⟨1, 4, 8⟩ [⟨700, 5, 30⟩, ⟨1234, 3, 40⟩] = ⟨1234, 700, 1⟩ := by decide
+example : endRepOff ⟨1, 4, 8⟩ [⟨700, 5, 30⟩] = ⟨700, 1, 4⟩ := by decide
+example : (storeExplicit true ⟨1, 4, 8⟩ [⟨700, 5, 30⟩, ⟨700, 3, 40⟩, ⟨4, 0, 45⟩]) = ([703, 1, 2], ⟨4, 700, 1⟩) := by decide
+example : producerBlock false true false (1 <<< 17) 0 ⟨1, 4, 8⟩ 100 40 41 [] = .fallback := by decide
+example : producerBlock false false false (1 <<< 17) 0 ⟨1, 4, 8⟩ 100 40 41 [] = .failed := by decide
+example : producerBlock false true false (1 <<< 17) 0 ⟨1, 4, 8⟩ 100 40 2 [⟨8, 10, 80⟩, ⟨0, 10, 0⟩] = .stored [11] 10 ⟨8, 1, 4⟩ := by decide
+example : producerBlock false true false (1 <<< 17) 0 ⟨1, 4, 8⟩ 100 40 2 [⟨8, 10, 80⟩, ⟨0, 11, 0⟩] = .invalid := by decide
 
 end ZstdVerif.Props.C17
